@@ -31,6 +31,7 @@ type Instance struct {
 	Fn      string
 	Params  map[string]int
 	MaxAlloc int64
+	MaxSteps int // per-path step budget (unwinding check); 0 = engine default (20 million)
 	Redirects map[string]string // extra redirects for this instance only
 	SymOnly  bool // depends on stand-ins that exist only under symbolic execution: no native replay / validation
 }
@@ -244,6 +245,10 @@ func runProperty(p *Property, tier string, seed, workers int, only string, norep
 		if in.MaxAlloc > 0 {
 			eng.MaxAlloc = in.MaxAlloc
 		}
+		eng.MaxSteps = 20_000_000
+		if in.MaxSteps > 0 {
+			eng.MaxSteps = in.MaxSteps
+		}
 		eng.SetRedirects(p.Redirects, in.Redirects)
 		inCopy := in
 		eng.StopOn = func(v sym.Violation) bool { return matchKnown(known, p.ID, inCopy, v) == nil }
@@ -304,6 +309,10 @@ func runProperty(p *Property, tier string, seed, workers int, only string, norep
 			eng.MaxAlloc = 64
 			if in.MaxAlloc > 0 {
 				eng.MaxAlloc = in.MaxAlloc
+			}
+			eng.MaxSteps = 20_000_000
+			if in.MaxSteps > 0 {
+				eng.MaxSteps = in.MaxSteps
 			}
 			eng.SetRedirects(p.Redirects, in.Redirects)
 			eng.StopOn = nil
@@ -652,6 +661,10 @@ func translatorValidation(eng *sym.Engine, p *Property, insts []Instance, tier s
 			h := eng.FindFunc(modPath + in.Pkg + "." + in.Fn)
 			eng.Params = in.Params
 			eng.MaxAlloc = 1 << 20
+			eng.MaxSteps = 20_000_000
+			if in.MaxSteps > 0 {
+				eng.MaxSteps = in.MaxSteps
+			}
 			eng.SetRedirects(p.Redirects, in.Redirects)
 			res, eerr := eng.RunConcrete(h, inputs)
 			if eerr != "" {
